@@ -209,6 +209,19 @@ class _CanonCache:
             pass
 
 
+def _number(tree):
+    """Source-order positions for every node of a (canonicalised) module: statements inlined from helpers carry the line numbers
+    of the helper, so program order is recorded separately (attribute `_pos`, read by astq.position); `lineno` keeps pointing
+    at the original source for reports."""
+    k = 0
+    stack = [tree]
+    while stack:
+        n = stack.pop()
+        k += 1
+        n._pos = (k, 0)
+        stack.extend(reversed(list(ast.iter_child_nodes(n))))
+
+
 class Model:
     """All modules of the package, indexed."""
 
@@ -228,6 +241,7 @@ class Model:
             except SyntaxError as e:
                 raise AnalysisError(f'cannot parse mpyc/{m}.py: {e}')
             tree = self._canonicalise(m, tree)
+            _number(tree)
             self.trees[m] = tree
             self._index(m, tree.body, prefix='', cls=None, parent=None)
         self.digest = hashlib.sha256('\0'.join(f'{m}\0{s}' for m, s in sorted(self.sources.items())).encode()).hexdigest()
